@@ -41,8 +41,13 @@ TEXTS = ["alpha", "beta gamma", "naïve café", "日本語", "=SUM(A1)", 'quo"te
 
 
 def _fill(con, r, table, n, cols=("c1", "c2", "c3")):
+    q = table.replace('"', '""')
+    if n >= 6:
+        # edge values: empty text, empty blob, NULL, the one-byte-less integers 0 and 1
+        for row in (("", b"", None), ("0", b"\x00", 0), ("", b"x", 1)):
+            con.execute(f'INSERT INTO "{q}" ({",".join(cols)}) VALUES (?,?,?)', row)
+        n -= 3
     for _ in range(n):
-        q = table.replace('"', '""')
         con.execute(f'INSERT INTO "{q}" ({",".join(cols)}) VALUES (?,?,?)',
                     (r.choice(TEXTS) + str(r.randint(0, 999)), bytes(r.randint(1, 255) for _ in range(r.randint(1, 24))),
                      r.choice([1.5, -2.25, 1e10, 3.0]) if r.random() < 0.5 else r.randint(-10 ** 9, 10 ** 9)))
@@ -596,6 +601,39 @@ def parse_sqlite_export(path):
     return out
 
 
+def parse_sqlite_classes(path):
+    """table -> {metadata key: storage classes of the value columns} of the non-carved rows"""
+    out = {}
+    con = sqlite3.connect(f"file:{path}?mode=ro", uri=True)
+    try:
+        for (name,) in con.execute("SELECT name FROM sqlite_master WHERE type='table'").fetchall():
+            cols = [c[1] for c in con.execute(f'PRAGMA table_info("{name}")')]
+            has_rowid = len(cols) > META and cols[META] in ("sd_row_id", "row_id")
+            k = META + (1 if has_rowid else 0)
+            q = name.replace('"', '""')
+            sel = ", ".join(['"%s"' % c.replace('"', '""') for c in cols[:k]] +
+                            ['typeof("%s")' % c.replace('"', '""') for c in cols[k:]])
+            d = {}
+            for rec in con.execute(f'SELECT {sel} FROM "{q}"'):
+                if str(rec[6]) == "Carved":
+                    continue
+                d["|".join(str(x) for x in rec[:k])] = list(rec[k:])
+            out[name] = d
+    finally:
+        con.close()
+    return out
+
+
+def serial_class(st):
+    if st == 0:
+        return "null"
+    if st == 7:
+        return "real"
+    if st in (1, 2, 3, 4, 5, 6, 8, 9):
+        return "integer"
+    return "blob" if st % 2 == 0 else "text"
+
+
 def parse_text_headers(text):
     """names of the entries a text export (file or console) contains, in order"""
     names = []
@@ -643,6 +681,7 @@ def api_view(db_path, wal_path=None, tables=None, carve=False, signatures=False,
         sig = sigs.get(e.name) if carve else None
         it = interface.get_version_history_iterator(e.name, vh, sig, freelists if sig else False)
         rr = []
+        classes = {}
         updated = False
         for commit in it:
             if not commit.updated:
@@ -658,7 +697,9 @@ def api_view(db_path, wal_path=None, tables=None, carve=False, signatures=False,
                     if table_leaf:
                         key.append(c.row_id)
                     rr.append((tuple(str(x) for x in key), len(c.payload.record_columns)))
-        rows[e.name] = {"rows": rr, "updated": updated, "sig": sig is not None}
+                    if op != "Carved":
+                        classes["|".join(str(x) for x in key)] = [serial_class(rc.serial_type) for rc in c.payload.record_columns]
+        rows[e.name] = {"rows": rr, "updated": updated, "sig": sig is not None, "classes": classes}
     return {"entries": entries, "rows": rows}
 
 
